@@ -207,6 +207,9 @@ class ValueMapping:
         # Attributes for converting Values strings to binary values:
         self._v2b_dict = {}  # values: bin (int or tuple)
 
+        # All entries in qualifier order, for items(): (bin, values)
+        self._items = []
+
     @classmethod
     def for_property(cls, server, namespace, classname, propname,
                      values_default=None):
@@ -690,6 +693,7 @@ class ValueMapping:
             if valuemap_str == '..':
                 vm._b2v_unclaimed = values_str
                 vm._v2b_dict[values_str] = None
+                vm._items.append((None, values_str))
             else:
                 lo, hi, values_str = vm._values_tuple(
                     i, valuemap_list, values_list, cimtype)
@@ -697,10 +701,12 @@ class ValueMapping:
                     # single value
                     vm._b2v_single_dict[lo] = values_str
                     vm._v2b_dict[values_str] = lo
+                    vm._items.append((lo, values_str))
                 else:
                     # value range
                     vm._b2v_range_tuple_list.append((lo, hi, values_str))
                     vm._v2b_dict[values_str] = (lo, hi)
+                    vm._items.append(((lo, hi), values_str))
 
         return vm
 
@@ -991,6 +997,5 @@ class ValueMapping:
           string.
         """
 
-        for values_str in self._v2b_dict:
-            element_value = self._v2b_dict[values_str]
+        for element_value, values_str in self._items:
             yield element_value, values_str
